@@ -13,7 +13,8 @@ import re
 
 from sa.interp import Interp, Scenario, Sym, Const, Bytes, Obj, render, merge_consts
 from sa.loader import AnalysisError, dotted
-from sa.condtab import split_filter, conj, table, atoms, same, skeleton
+from sa.condtab import split_filter, conj, table, atoms, same
+from sa.looppaths import observe, path_cond, any_of, atom_value
 
 noinline = lambda f: False  # noqa: E731
 
@@ -180,53 +181,6 @@ def exportable(rep, prog):
               'exportable certification is boolean subpacket type 4 (RFC 4880 5.2.3.11)', where=E.where)
 
 
-class LoopRec(object):
-    """One summarised loop as the interpreter saw it: the paths of a single iteration before they are merged."""
-    def __init__(self, frame, node, colltext, vartext, before, body):
-        self.node, self.depth = node, frame.depth
-        self.coll, self.conds = split_filter(colltext)
-        self.var = vartext
-        self.before = before
-        self.paths = []
-        nf, ne = len(before.facts), len(before.events)
-        for st, status in body:
-            self.paths.append((status, st.facts[nf:], st.events[ne:], st))
-
-
-def observe(prog, fn, **kw):
-    """Interpret fn; returns (final states, [LoopRec of every summarised loop of fn itself])."""
-    recs = []
-    sc = Scenario(inline=noinline, **kw)
-    sc.loop_observer = lambda frame, node, coll, var, before, body: recs.append(LoopRec(frame, node, coll, var, before, body)) if frame.depth == 0 else None
-    outs = Interp(prog, sc).run(fn)
-    return outs, recs
-
-
-def path_cond(facts):
-    """Skeleton of the conjunction of a path's decisions."""
-    out = []
-    for f in facts:
-        if len(f) < 3 or f[2] is None:
-            continue            # exception edges / loop markers are not conditions of the element
-        sk = skeleton(f[0])
-        out.append(sk if f[1] else ('not', sk))
-    return ('and', out)
-
-
-def any_of(conds):
-    return ('or', list(conds))
-
-
-def atom_value(facts, atom):
-    """Value of an atom on a path whose decisions fix it (None when the path does not depend on it / not uniquely)."""
-    sk = path_cond(facts)
-    if atom not in atoms(sk):
-        return None
-    tab, names = table(sk)
-    vals = {dict(zip(names, v))[atom] for v, keep in tab.items() if keep}
-    return vals.pop() if len(vals) == 1 else None
-
-
 def _effects(events):
     return [e for e in events if e[0] in ('store', 'ior', 'del', 'yield', 'raise', 'return')]
 
@@ -357,7 +311,7 @@ def grouping(rep, prog):
                 taking = [p for p in r.paths if takes_head(p[2])]
                 if not taking:
                     raise AnalysisError('PGPKey.parse: no path takes the head packet of a group with next(group)')
-                for status, facts, events, st in taking:
+                for status, facts, events, _ in taking:
                     filed = [(e[1], e[2]) for e in events if e[0] == 'store' and e[1].startswith(KEYS + '[')]
                     filed = [(pth, val.replace('(%s | (PGPSignature() | ' % H, '\0').split('\0')[0] if val.startswith('(%s | (PGPSignature() | ' % H) else val) for pth, val in filed]
                     primary = atom_value(facts, '%s.is_primary' % H) if kind == 'key' else False
@@ -573,7 +527,7 @@ def attach(rep, prog):
         when = atom_value(r.before.facts, binding)
         E = '(PGPSignature() | %s)' % r.var
         good = when is True and not r.conds
-        for status, facts, events, st in r.paths:
+        for status, facts, events, _ in r.paths:
             linked = [e for e in events if e[0] == 'store' and e[1] == '%s._parent' % E and e[2] == o]
             inserted = [e for e in events if e[0] == 'call' and e[1] == '%s._signatures.insort' % me and e[2] == [E]]
             good = good and len(linked) == 1 and len(inserted) == 1 and status in ('normal', 'continue')
